@@ -125,6 +125,7 @@ def _parse(ctx, parser, data):
         for e in parser.kevents(stream):
             evs.append(e)
     except Exception as e:      # noqa - judged by the obligations
+        __import__('vxlib.symx.core', fromlist=['x']).proxy_rejected(e)
         err = e
     return evs, err
 
